@@ -80,6 +80,8 @@ const (
 	// fpRace: lock and tombstone broadcasts for one target interleave; the lock
 	// is accepted but the object is lost (at once or at the next GC pass).
 	fpRace = "C08:concurrent-lock-tombstone-not-atomic"
+	// fpEvacDeg is a finding of C19 that C08's evacuate+detach op runs into.
+	fpEvacDeg = "C19:evacuate-degraded-shard-reports-success-moves-nothing"
 
 	nObj   = 4 // regular object ids 0..3
 	nLock  = 4 // lock ids 4..7
@@ -821,13 +823,6 @@ func (r *run) exec(i int, o op) {
 			r.trace = append(r.trace, step+" -> skipped, last shard")
 			return
 		}
-		if r.noMeta(o.Shard) {
-			// Evacuate of a shard without metabase lists nothing and returns (0, nil)
-			// (TODO #1731 in evacuate.go): nobody may detach such a shard
-			r.labels["detach-skipped-shard-degraded"] = true
-			r.trace = append(r.trace, step+" -> skipped, shard has no metabase")
-			return
-		}
 		m := r.e.Mode(o.Shard)
 		if !m.ReadOnly() {
 			_ = r.e.SetMode(o.Shard, m|mode.ReadOnly)
@@ -838,6 +833,28 @@ func (r *run) exec(i int, o op) {
 			r.trace = append(r.trace, fmt.Sprintf("%s -> evacuate %d, %s; not detached", step, n, errStr(err)))
 			break
 		}
+		if r.noMeta(o.Shard) && ev.IsOpen("C19", fpEvacDeg) {
+			// OPEN finding of C19: Evacuate of a shard without metabase lists
+			// nothing, moves nothing and returns (0, nil). Whatever lived only on
+			// this shard (objects, lock objects) is gone with it: the protected
+			// objects concerned are no longer asserted.
+			for t := 0; t < nObj; t++ {
+				if !r.live(t) || r.poisoned[t] != "" {
+					continue
+				}
+				lost := onlyOn(r.e.Holders(r.addr(t)), o.Shard)
+				for li := nObj; li < nObj+nLock; li++ {
+					if r.h.Objs[li].Target == t {
+						lost = lost || onlyOn(r.e.Holders(r.addr(li)), o.Shard)
+					}
+				}
+				if lost {
+					r.poisoned[t] = "known finding " + fpEvacDeg
+					r.excluded++
+					r.labels["known(C19):"+fpEvacDeg] = true
+				}
+			}
+		}
 		if err := r.detach(o.Shard); err != nil {
 			ev.Inconclusive("C08 engine rebuild: %v", err)
 		}
@@ -847,6 +864,9 @@ func (r *run) exec(i int, o op) {
 	r.lastOp = o.K
 	r.checkAll(step)
 }
+
+// onlyOn reports whether holders is exactly {k}.
+func onlyOn(holders []int, k int) bool { return len(holders) == 1 && holders[0] == k }
 
 func (r *run) aliveList() []int {
 	var l []int
